@@ -1,5 +1,5 @@
 SPECIFICATION FairSpec
-INVARIANTS TypeOK AllBufferedFlushed LevelA NeverAbandoned NonBlockingNeverBlocks DropsCounted BlockingNeverDrops
+INVARIANTS TypeOK
 CHECK_DEADLOCK FALSE
 CONSTANTS
   FaultKinds = {"4xx", "5xx", "timeout", "reset"}
